@@ -266,7 +266,7 @@ var SEQ = (function(){
     case "async": return Function("return async function(a){ return 1; }")();
     case "gen": return Function("return function*(a){ yield 1; }")();
     case "bfn": return Math.max;
-    case "bctor": return Date;
+    case "bctor": return Number;       // a built-in constructor that is also callable, deterministic (Date() reads the clock)
     case "obj": return {x:1};
     case "arr": return [1,2];
     case "pfn": return new Proxy(function(a){ return (a|0)+5; }, {});
